@@ -4,9 +4,10 @@ import (
 	"bytes"
 	"encoding/json"
 	"fmt"
+	"io/ioutil"
 	"os"
-	"regexp"
 	"path/filepath"
+	"regexp"
 	"strings"
 
 	mxj "github.com/clbanning/mxj/v2"
@@ -585,6 +586,37 @@ func c20Pair(c *Ctx, k c20Case, choices []int) (nontrivial bool) {
 				}
 			}
 			core = fmt.Sprintf("%q|err=%v", want, false)
+		case "x2jw.XmlMsgsFromReader(stop)", "x2jw.XmlMsgsFromReaderAsJson(stop)":
+			// the handler ends the run after the first message ("can be stopped after a particular message"): the wrapper
+			// is a loop of the core's reader decoder, so it has consumed what one mxj.NewMapXmlReader call consumes and
+			// the caller's reader delivers the rest of the stream afterwards
+			var got []string
+			var e error
+			src := strings.NewReader(k.Xml)
+			if k.Fn == "x2jw.XmlMsgsFromReader(stop)" {
+				e = x2jw.XmlMsgsFromReader(oneRead{src}, func(m map[string]interface{}) bool {
+					got = append(got, dump(m))
+					return false
+				}, func(error) bool { return false }, k.Flag)
+			} else {
+				e = x2jw.XmlMsgsFromReaderAsJson(oneRead{src}, func(js string) bool {
+					got = append(got, js)
+					return false
+				}, func(error) bool { return false }, k.Flag)
+			}
+			rest, _ := ioutil.ReadAll(src)
+			w = fmt.Sprintf("%q|err=%v|rest of the stream=%q", got, e != nil, rest)
+			src2 := strings.NewReader(k.Xml)
+			m, e2 := mxj.NewMapXmlReader(oneRead{src2}, k.Flag)
+			var want []string
+			if k.Fn == "x2jw.XmlMsgsFromReader(stop)" {
+				want = append(want, dump(map[string]interface{}(m)))
+			} else {
+				j, _ := m.Json()
+				want = append(want, string(j))
+			}
+			rest2, _ := ioutil.ReadAll(src2)
+			core = fmt.Sprintf("%q|err=%v|rest of the stream=%q", want, e2 != nil, rest2)
 		case "x2jw.ValuesFromTagPath(@)":
 			// the attribute prefix is an option of the core (C01 domain): attribute entries are the ones carrying it
 			mxj.SetAttrPrefix("@")
@@ -773,7 +805,7 @@ func c20Walkers(c *Ctx, m map[string]interface{}, fn, key, path string, flag boo
 
 func c20Run(c *Ctx) {
 	mustBeDefault(c)
-	c.S.Rule = "part 1 (wrappers = documented composition of core calls): every exported function of j2x (17), x2j (17) and the conversion/reader/buffer/file functions of x2j-wrapper (22) x documents (XML: all element trees with <= 3 elements with <= 1 decoration, plus malformed inputs; JSON: Map templates with <= 4 nodes incl. special characters, plus malformed inputs) x keys {a,b,k,z,*} / paths of <= 2 steps / sub-key sets / key pairs / flags (safe encoding, recast) - wrapper result and error-ness must equal the composition executed on the same build in the same option state. part 2 (x2j-wrapper's own walkers): every Map template with <= N nodes over keys {a,k,-x} x keys / wildcard paths of <= 3 steps x getAttrs: PathsForKey = Map.PathsForKey as sets, PathForKeyShortest a member of equal length, ValuesFromKeyPath = reference walk with attribute entries excluded at wildcard steps unless requested (= Map.ValuesForPath when requested), ValuesAtKeyPath = the parent-level values iff one has the key. plus the sibling family {top:[M1,M2]} (Mi every map template with <= 4 nodes over {a,k}). Byte results of wrappers and compositions are retained and re-checked after later calls. Ascending/descending map order; E-choice bound 1 on the walkers for small Maps. non-trivial = non-empty result."
+	c.S.Rule = "part 1 (wrappers = documented composition of core calls): every exported function of j2x (17), x2j (17) and the conversion/reader/buffer/file functions of x2j-wrapper (22) x documents (XML: all element trees with <= 3 elements with <= 1 decoration, plus malformed inputs; JSON: Map templates with <= 4 nodes incl. special characters, plus malformed inputs) x keys {a,b,k,z,*} / paths of <= 2 steps / sub-key sets / key pairs / flags (safe encoding, recast) - wrapper result and error-ness must equal the composition executed on the same build in the same option state. part 2 (x2j-wrapper's own walkers): every Map template with <= N nodes over keys {a,k,-x} x keys / wildcard paths of <= 3 steps x getAttrs: PathsForKey = Map.PathsForKey as sets, PathForKeyShortest a member of equal length, ValuesFromKeyPath = reference walk with attribute entries excluded at wildcard steps unless requested (= Map.ValuesForPath when requested), ValuesAtKeyPath = the parent-level values iff one has the key. plus the sibling family {top:[M1,M2]} (Mi every map template with <= 4 nodes over {a,k}). Byte results of wrappers and compositions are retained and re-checked after later calls. Ascending/descending map order; E-choice bound 1 on the walkers for small Maps. non-trivial = non-empty result. The bulk reader wrappers are also stopped by their handler after the first message: results and the rest of the stream the caller's reader still delivers equal those of one mxj.NewMapXmlReader call on an identical reader."
 	c.S.Assumptions = []string{"MapValue/DocValue/ValuesForKey of x2j-wrapper have no core counterpart with equal semantics and are covered by C15 (totality) only"}
 	// ---- documents
 	var xmls []string
@@ -866,6 +898,8 @@ func c20Run(c *Ctx) {
 			for _, sep := range []string{"", "\n "} {
 				for _, flag := range []bool{false, true} {
 					run(c20Case{Fn: "x2jw.XmlMsgsFromReader", Xml: d1 + sep + d2, Pairs: []string{d1, d2}, Flag: flag})
+					run(c20Case{Fn: "x2jw.XmlMsgsFromReader(stop)", Xml: d1 + sep + d2, Flag: flag})
+					run(c20Case{Fn: "x2jw.XmlMsgsFromReaderAsJson(stop)", Xml: d1 + sep + d2 + sep + d1, Flag: flag})
 					run(c20Case{Fn: "x2jw.XmlMsgsFromReaderAsJson", Xml: d1 + sep + d2 + sep + d1, Pairs: []string{d1, d2, d1}, Flag: flag})
 					run(c20Case{Fn: "x2jw.XmlMsgsFromFile", Xml: d1 + sep + d2, Pairs: []string{d1, d2}, Flag: flag})
 					run(c20Case{Fn: "x2jw.XmlMsgsFromFileAsJson", Xml: d1 + sep + d2 + sep + d1, Pairs: []string{d1, d2, d1}, Flag: flag})
